@@ -10,13 +10,14 @@ PROP_MODULES = {
     'C05': ['contracts.builders', 'contracts.shared_grid', 'contracts.c05_compact', 'contracts.c06_atomic'],
     'C19': ['contracts.builders', 'contracts.shared_grid', 'contracts.c05_compact'],
     'C06': ['contracts.builders', 'contracts.shared_grid', 'contracts.c05_compact', 'contracts.c06_atomic'],
+    'C09': ['contracts.builders', 'contracts.shared_grid', 'contracts.c03_grid', 'contracts.c04_meta', 'contracts.c05_compact', 'contracts.c16_limits', 'contracts.c09_paths'],
     'C12': ['contracts.builders', 'contracts.shared_grid', 'contracts.c03_grid', 'contracts.c04_meta', 'contracts.c08_creator', 'contracts.c11_seed', 'contracts.c13_expiry', 'contracts.c12_cleanup'],
     'C11': ['contracts.builders', 'contracts.shared_grid', 'contracts.c03_grid', 'contracts.c04_meta', 'contracts.c11_seed'],
     'C15': ['contracts.builders', 'contracts.c15_async'],
     'C14': ['contracts.builders', 'contracts.c14_merge'],
     'C16': ['contracts.builders', 'contracts.shared_grid', 'contracts.c03_grid', 'contracts.c04_meta', 'contracts.c16_limits'],
     'C13': ['contracts.builders', 'contracts.shared_grid', 'contracts.c03_grid', 'contracts.c04_meta', 'contracts.c08_creator', 'contracts.c13_expiry'],
-    'C08': ['contracts.builders', 'contracts.shared_grid', 'contracts.c03_grid', 'contracts.c04_meta', 'contracts.c08_creator'],
+    'C08': ['contracts.builders', 'contracts.shared_grid', 'contracts.c03_grid', 'contracts.c04_meta', 'contracts.c05_compact', 'contracts.c16_limits', 'contracts.c08_creator', 'contracts.c09_paths'],
 }
 
 # semantics assumed by the encoding (DESIGN.md section 2.4), reported in every evidence file
@@ -41,6 +42,17 @@ NOT_APPLICABLE = {
 }
 
 MANIFEST_META = {
+    'C09': dict(
+        text='Proof that the paths built from numbers stay below their root: compact bundle file = cache_dir/L<z>/R<r>C<c> (two '
+             'safe segments, string lemma), lock file = lock_dir/<cache id>-x-y-z.lck (one segment; injective for non-negative '
+             'coordinates), tile coordinates reaching the cache are in-grid (C16: _internal_tile_coord, render ordering). The '
+             'request-supplied dimension names/values (split/join/replace on symbolic strings is undecided in both string '
+             'solvers) are covered by a BOUNDED check: dimensions_part and the six tile_location_* layouts are run on the real '
+             'code with hostile keys/values and huge coordinates and the result must stay below the root.',
+        note='bounded part: ~13000 generated inputs per run from a fixed hostile vocabulary, labelled bounded and not counted '
+             'in discharged; A-fmt (number images contain no separator/dot); audit-event level (actual syscalls), multiapp '
+             'and symlinks placed by third parties are outside; defect S5 (dimension path traversal) was found here and '
+             'repaired in /repo f17d1f2'),
     'C05': dict(
         text='Proof against a field-granular file model, for all addresses / payloads / prior contents: compact v2 '
              '_store_tile updates the abstract view exactly (target slot = new bytes, EVERY other slot and its record bytes '
